@@ -184,6 +184,77 @@ func checkC15(w *World, c *Check, tier string) {
 	for _, f := range object.Fields {
 		objTerms[f.Term] = true
 	}
+	// ---- of: the public helper hands back what the per-kind helper found — for an actor's own collection the result of
+	// ofActor must not be overwritten by a later lookup on the object core (which can only build the default IRI) ----
+	if of := w.Method("CollectionPath", "Of"); of != nil {
+		ofA, ofO := w.Method("CollectionPath", "ofActor"), w.Method("CollectionPath", "ofObject")
+		pa := types.NewPointer(actor.Named)
+		actorTerms := map[string]bool{}
+		for _, f := range actor.Fields {
+			if !objTerms[f.Term] {
+				actorTerms[f.Term] = true
+			}
+		}
+		for _, n := range c15Names {
+			ip := newInterp(w)
+			var seq []string
+			ip.onCall = func(ev callEvent) {
+				switch ev.Callee {
+				case ofA:
+					seq = append(seq, "ofActor")
+				case ofO:
+					seq = append(seq, "ofObject")
+				}
+			}
+			// an actor whose type is an actor type: GetType() is forced to a member of ActorTypes
+			ip.postCall = func(callee *ssa.Function, args []AV, res AV) AV {
+				if callee.Name() == "GetType" {
+					return AV{K: kConst, C: constant.MakeString("Person"), T: w.Named("ActivityVocabularyType")}
+				}
+				return res
+			}
+			ip.Call(of, []AV{mk(n), avIface(pa, avNonNilPtr(pa))}, nil, Store{}, nil)
+			key := "CollectionPath.Of:" + n
+			last := ""
+			if len(seq) > 0 {
+				last = seq[len(seq)-1]
+			}
+			switch {
+			case ip.aborted != "":
+				c.bad("C15.of", key, w.FuncPos(of), "undecided: "+ip.aborted)
+			case actorTerms[n] && last != "ofActor":
+				c.bad("C15.of", key, w.FuncPos(of), fmt.Sprintf("for the actor collection %q the last lookup of CollectionPath.Of on an actor is %q (sequence %v): the collection the actor sets explicitly is replaced by the IRI built from its id", n, last, seq))
+			case !actorTerms[n] && objTerms[n] && last != "ofObject":
+				c.bad("C15.of", key, w.FuncPos(of), fmt.Sprintf("for the object collection %q CollectionPath.Of does not end with the lookup on the object (sequence %v): the explicitly set collection is ignored", n, seq))
+			default:
+				c.ok("C15.of", key, w.FuncPos(of), fmt.Sprintf("lookups %v", seq))
+			}
+		}
+	}
+	// ---- build: the fallback builds owner + "/" + name for every non-empty owner, whatever the owner looks like ----
+	if ofIRI := w.Method("CollectionPath", "ofIRI"); ofIRI != nil {
+		bad := ""
+		n := 0
+		for _, rb := range returnBlocks(ofIRI) {
+			ret := rb.Instrs[len(rb.Instrs)-1].(*ssa.Return)
+			if len(ret.Results) != 1 || isNilConst(ret.Results[0]) {
+				continue
+			}
+			n++
+			v := unwrap(ret.Results[0])
+			call, ok := v.(*ssa.Call)
+			if !ok || call.Common().StaticCallee() == nil || call.Common().StaticCallee().Name() != "AddPath" {
+				bad = fmt.Sprintf("CollectionPath.ofIRI can return %s (at %s) instead of the owner's IRI extended by the collection name: for some owners the helper hands back the owner itself (e.g. an object whose id already ends in the name), and splitting that result yields a different owner", shortVal(v), w.InstrPos(ret))
+			}
+		}
+		if bad != "" {
+			c.bad("C15.build", "CollectionPath.ofIRI", w.FuncPos(ofIRI), bad)
+		} else if n > 0 {
+			c.ok("C15.build", "CollectionPath.ofIRI", w.FuncPos(ofIRI), "every non-nil result is iri.AddPath(name)")
+		} else {
+			c.bad("C15.build", "CollectionPath.ofIRI", w.FuncPos(ofIRI), "no building return found (undecided)")
+		}
+	}
 	for _, tg := range targets {
 		// fields touched regardless of the name (e.g. the id used for the fallback IRI) are not part of the mapping
 		always := map[string]int{}
